@@ -57,6 +57,42 @@ fn mutate(r: &mut Rng, t: &str) -> String {
     c.into_iter().collect()
 }
 
+/// a random derivation from the optimized rules of the CURRENT grammar.pest (mostly-valid texts that use every alternative)
+fn derive(rules: &std::collections::HashMap<String, pest_meta::optimizer::OptimizedExpr>, e: &pest_meta::optimizer::OptimizedExpr, r: &mut Rng, depth: u32, out: &mut String) {
+    use pest_meta::optimizer::OptimizedExpr as O;
+    if out.len() > 400 { return; }
+    match e {
+        O::Str(s) => out.push_str(s), O::Insens(s) => out.push_str(s),
+        O::Range(a, b) => { let (a, b) = (a.chars().next().unwrap_or('a') as u32, b.chars().next().unwrap_or('a') as u32); out.push(char::from_u32(a + r.below((b.max(a) - a + 1) as u64) as u32).unwrap_or('a')); }
+        O::Ident(n) => match n.as_str() {
+            "ANY" => out.push(['a', 'x', ' ', '1'][r.below(4) as usize]), "SOI" | "EOI" => {}
+            _ => if let Some(x) = rules.get(n) { if depth == 0 { shortest(rules, x, 6, out) } else { derive(rules, x, r, depth - 1, out) } } else { out.push('a') },
+        },
+        O::PosPred(_) | O::NegPred(_) => {}
+        O::Seq(a, b) => { derive(rules, a, r, depth, out); if r.chance(1, 4) { out.push(' '); } derive(rules, b, r, depth, out); }
+        O::Choice(a, b) => { let mut alts = vec![&**a]; let mut cur = &**b; while let O::Choice(x, y) = cur { alts.push(&**x); cur = &**y; } alts.push(cur);
+            let k = r.below(alts.len() as u64) as usize; derive(rules, alts[k], r, depth, out); }
+        O::Opt(x) => if depth > 0 && r.chance(1, 2) { derive(rules, x, r, depth, out) },
+        O::Rep(x) => if depth > 0 { for _ in 0..r.below(3) { derive(rules, x, r, depth - 1, out); } },
+        O::Skip(_) => out.push_str(["", "x", "ab "][r.below(3) as usize]),
+        O::Push(x) | O::RestoreOnErr(x) => derive(rules, x, r, depth, out),
+        _ => {}
+    }
+}
+fn shortest(rules: &std::collections::HashMap<String, pest_meta::optimizer::OptimizedExpr>, e: &pest_meta::optimizer::OptimizedExpr, fuel: u32, out: &mut String) {
+    use pest_meta::optimizer::OptimizedExpr as O;
+    match e {
+        O::Str(s) => out.push_str(s), O::Insens(s) => out.push_str(s), O::Range(a, _) => out.push_str(a),
+        O::Ident(n) => match n.as_str() { "ANY" => out.push('a'), "SOI" | "EOI" => {}, _ => if fuel > 0 { if let Some(x) = rules.get(n) { shortest(rules, x, fuel - 1, out) } } else { out.push('a') } },
+        O::Seq(a, b) => { shortest(rules, a, fuel, out); shortest(rules, b, fuel, out); }
+        O::Choice(a, b) => { // the alternative that needs no recursion if there is one: try the last, then the first
+            let mut cur = &**b; while let O::Choice(_, y) = cur { cur = &**y; }
+            if fuel > 2 { shortest(rules, a, fuel - 1, out) } else { shortest(rules, cur, fuel.saturating_sub(1), out) } }
+        O::Push(x) | O::RestoreOnErr(x) => shortest(rules, x, fuel, out),
+        _ => {}
+    }
+}
+
 fn pest_files(repo: &str) -> Vec<String> {
     let mut out = vec![];
     let mut stack = vec![std::path::PathBuf::from(repo)];
@@ -121,6 +157,7 @@ fn main() {
             let opt = match catch(|| pest_meta::parse_and_optimize(&gtext)) { Ok(Ok((_, o))) => o, _ => { writeln!(w, "GE\tmeta/src/grammar.pest is rejected by pest_meta (the checked-in parser + validator)").unwrap(); writeln!(w, "#SUMMARY\tevaluations=1\tdistinct_nontrivial=0").unwrap(); return; } };
             writeln!(w, "G\tmeta\t0\t{}\t-", sexp_grammar(&from_orules(&opt))).unwrap();
             let names: Vec<String> = opt.iter().map(|r| r.name.clone()).collect();
+            let rmap: std::collections::HashMap<String, pest_meta::optimizer::OptimizedExpr> = opt.iter().map(|r| (r.name.clone(), r.expr.clone())).collect();
             let vm = pest_vm::Vm::new(opt);
             let all = pest_meta::parser::Rule::all_rules();
             let top = pest_meta::parser::Rule::grammar_rules;
@@ -132,7 +169,8 @@ fn main() {
             for f in &files { if let Ok(t) = std::fs::read_to_string(f) { valid.push(t); } }
             let nfiles = valid.len();
             for _ in 0..count / 4 { let g = gen_grammar(&mut rng, &GenCfg { stack: true, extras: false, counts: true, builtins: true }); valid.push(pest_grammar(&g)); }
-            for (i, t) in valid.iter().enumerate() { let rs = if i < nfiles { vec![top] } else { main_rules(&mut rng) }; cases.push((t.clone(), rs)); }
+            let fixed = arg(5) != "nofixed";   // the seed-independent texts are emitted by one of the parallel runs only
+            for (i, t) in valid.iter().enumerate() { let rs = if i < nfiles { vec![top] } else { main_rules(&mut rng) }; if i >= nfiles || fixed { cases.push((t.clone(), rs)); } }
             // near-miss grammars
             for _ in 0..count {
                 let base = &valid[rng.below(valid.len() as u64) as usize];
@@ -141,12 +179,21 @@ fn main() {
                 let rs = main_rules(&mut rng);
                 cases.push((t, rs));
             }
+            // random derivations from the rules of the current grammar.pest, for the top rule and for random sub-rules
+            for i in 0..count {
+                let start = if i % 3 == 0 { "grammar_rules".to_string() } else { names[rng.below(names.len() as u64) as usize].clone() };
+                let mut t = String::new();
+                derive(&rmap, &rmap[&start], &mut rng, 4 + (i % 3) as u32, &mut t);
+                let rs: Vec<pest_meta::parser::Rule> = all.iter().cloned().filter(|r| format!("{:?}", r) == start).collect();
+                if rng.chance(1, 4) { t = mutate(&mut rng, &t); }
+                cases.push((t, if rs.is_empty() { vec![top] } else { rs }));
+            }
             // fragments fed to every rule: short strings over the meta alphabet
             let alpha = ["a", "=", "{", "}", "\"", "'", "~", "|", "*", " ", "_", "!"];
-            for t in all_strings(&alpha, 2) { cases.push((t, all.to_vec())); }
+            if fixed { for t in all_strings(&alpha, 2) { cases.push((t, all.to_vec())); } }
             let frags = ["\"a\"", "'a'..'z'", "^\"a\"", "a = { b }", "PUSH(a)", "PEEK[1..2]", "PEEK[..]", "PEEK[-1..]", "a{2,3}", "a{,3}", "a{2,}", "a{2}", "#t = a", "// c\n", "/* c */", "/// d\n", "//! d\n",
                 "\"\\n\"", "\"\\x41\"", "\"\\u{1F600}\"", "'\\''", "a ~ b | c", "!a ~ &b", "(a | b)*", "a+?", "_", "a = _{ \"x\" }", "a = @{ b }", "a = ${ b }", "a = !{ b }", "PUSH_LITERAL(\"a\")", "-12", "007", "|a", "a = { | b }"];
-            for f in frags.iter() { cases.push((f.to_string(), all.to_vec())); let m = mutate(&mut rng, f); cases.push((m, all.to_vec())); }
+            for f in frags.iter() { if fixed { cases.push((f.to_string(), all.to_vec())); } let m = mutate(&mut rng, f); cases.push((m, all.to_vec())); }
             for _ in 0..count { let n = rng.range(3, 10); let t: String = (0..n).map(|_| alpha[rng.below(alpha.len() as u64) as usize]).collect(); let rs = main_rules(&mut rng); cases.push((t, rs)); }
             if arg(5) == "one" { cases = vec![(pvharness::prog::unhex(&arg(7)), all.iter().cloned().filter(|r| format!("{:?}", r) == arg(6)).collect())]; }
             let (mut n, mut nt, mut diffs) = (0u64, 0u64, 0u64);
